@@ -119,8 +119,8 @@ Definition last_explicit (f : form) : option foperand := List.last (List.map Som
 Definition dest_is_vector_or_k (f : form) : bool :=
   match last_explicit f with Some o => existsb (String.eqb (fo_type o)) ["XMM";"YMM";"ZMM";"K"]%string | None => false end.
 Definition form_io_ok (f : form) : bool :=
-  (* zeroing-masked forms overwrite the destination completely: write-only *)
-  (negb (is_z_class (f_sclass f)) || match last_explicit f with Some o => fo_action o =? 2 | None => false end)
+  (* zeroing-masked forms write the destination (declaring it read as well is a safe over-approximation, and true for FMA-like forms) *)
+  (negb (is_z_class (f_sclass f)) || match last_explicit f with Some o => act_write (fo_action o) | None => false end)
   (* self-cancelling forms start with two explicit register operands of one type *)
   && ((N.land (f_features f) featCancel =? 0)
       || match f_operands f with
@@ -154,4 +154,24 @@ Definition build_impl_ok (rf : regfile) (ss : suffix_sets) (tab : list (N * list
   match obs with
   | Some i => existsb (fun f => form_match rf ss f sfx ops && instr_eqb_io (form_build f sfx ops) i) fs
   | None => negb (existsb (fun f => form_match rf ss f sfx ops) fs)
+  end.
+
+(* merge-masking: a form with a write-mask operand (a K operand immediately before a vector
+   destination) and no zeroing suffix keeps the unselected destination lanes, so the destination
+   is read as well as written *)
+Definition explicit_ops (f : form) : list foperand := List.filter (fun o => negb (fo_implicit o)) (f_operands f).
+Definition is_vec_type (t : string) : bool := existsb (String.eqb t) ["XMM";"YMM";"ZMM"]%string.
+Definition is_mem_type (t : string) : bool := existsb (String.eqb t) ["M";"M8";"M16";"M32";"M64";"M128";"M256";"M512"]%string.
+Definition masked_dest (f : form) : option (foperand * foperand) :=   (* (mask, destination) *)
+  match List.rev (explicit_ops f) with
+  | d :: k :: _ :: _ => if String.eqb (fo_type k) "K" && (is_vec_type (fo_type d) || is_mem_type (fo_type d)) then Some (k, d) else None
+  | _ => None
+  end.
+Definition merge_mask_ok (f : form) : bool :=
+  match masked_dest f with
+  | Some (k, d) => act_read (fo_action k) &&
+                   (if is_z_class (f_sclass f) then act_write (fo_action d)
+                    else if is_mem_type (fo_type d) then act_write (fo_action d)   (* masked store: unselected memory is simply not written *)
+                    else act_read (fo_action d) && act_write (fo_action d))
+  | None => true
   end.
